@@ -173,3 +173,10 @@ Print Assumptions C11_reachable_clean_within_limit.
 Theorem C11_operations_serialised : Gen.table_ops_serialised = true.
 Proof. reflexivity. Qed.
 Print Assumptions C11_operations_serialised.
+
+(* ---------- lock discipline of the operations the model treats as atomic (go/ast obligation on the source under test) ---------- *)
+(* Clean, RemoveNextHop, RemoveDisconnected and the three lookups lock the table first and defer the
+   unlock (AddRoute locks after validating its argument: C11_operations_serialised). *)
+Theorem C11_lock_discipline : Gen.lock_discipline_table = true.
+Proof. repeat split; reflexivity. Qed.
+Print Assumptions C11_lock_discipline.
